@@ -176,6 +176,9 @@ func (h *hist) checkClock() {
 
 func (h *hist) ext(rel string, data []byte) {
 	p := filepath.Join(h.logs(), filepath.FromSlash(rel))
+	if i := strings.LastIndexByte(rel, '/'); i > 0 {
+		h.extDir(rel[:i])
+	}
 	os.MkdirAll(filepath.Dir(p), 0o755)
 	if _, err := os.Lstat(p); err == nil {
 		return
@@ -863,11 +866,6 @@ func genBurst(c *core.Ctx, t *core.Trace, gen string, cas int, G, N int, withCyc
 			return b[len(old):]
 		}
 		return b
-	}
-	type item struct {
-		ev  core.Ev
-		g   int
-		seq int
 	}
 	var seqEv []core.Ev
 	done := make([]int, G) // calls of g already listed
